@@ -189,6 +189,9 @@ FaultReply(ch, f) ==
     [] f = "otherkey"  -> Sig("other", m, e[3], TRUE)
     [] f = "wrongbf"   -> Sig(key, m, NoBf, TRUE)
     [] f = "identity"  -> Sig(key, m, e[3], FALSE)
+    [] f = "swapbal"   -> IF m[4] # m[5] THEN Sig(key, [m EXCEPT ![4] = m[5], ![5] = m[4]], e[3], TRUE)      \* the two balances exchanged
+                                         ELSE Sig(key, [m EXCEPT ![4] = AltNum(m[4])], e[3], TRUE)
+    [] f = "altslot2"  -> Sig(key, [m EXCEPT ![2] = <<"alt", 0, 0>>], e[3], TRUE)                        \* another nonce / another tag
     [] f = "smallorder" -> Sig("nongroup", GarbageMsg, NoBf, TRUE)   \* sigma1 on the curve but outside G1: not a signature of any key
     [] OTHER           -> NoSig
 
